@@ -180,10 +180,18 @@ impl Sub<f64> for ClockTime {
 			return self.add(-ticks);
 		}
 
-		let fraction = ((self.fraction - ticks).fract() + 1.0) % 1.0;
-		let ticks = self
-			.ticks
-			.saturating_sub((ticks - self.fraction).ceil() as u64);
+		// derive the new fraction and the number of borrowed ticks from the same
+		// difference, so that a rounding of one cannot disagree with the other
+		let difference = self.fraction - ticks;
+		let whole = difference.floor();
+		let mut fraction = difference - whole;
+		let mut borrowed = -whole;
+		if fraction >= 1.0 {
+			// a tiny negative difference rounds up to a whole tick
+			fraction = 0.0;
+			borrowed -= 1.0;
+		}
+		let ticks = self.ticks.saturating_sub(borrowed as u64);
 
 		Self {
 			clock: self.clock,
